@@ -928,7 +928,7 @@ fn run(ctx: &mut Ctx) {
     }
     ctx.exhaustive("every payload of the hostile pool alone in every payload position (text, CDATA, each attribute constructor, comment, PI, element writer)");
     // random longer sequences
-    let n = ctx.scaled(t.pick(800_000, 8_000_000)) / ctx.nshards as u64;
+    let n = ctx.scaled(t.pick(800_000, 40_000_000)) / ctx.nshards as u64;
     let maxlen = t.pick(6, 12);
     for _ in 0..n {
         let len = 1 + r.below(maxlen);
